@@ -81,8 +81,8 @@ def literal_strategy():
 
 def strategy(tier):
     d1 = st.fixed_dictionaries({"dir": st.just(1), "value": value_strategy(), "ctx": st.sampled_from(["exps_op", "exps_op", "ssbs_op", "menu", "casetext", "defaulttext", "template", "template", "flag"]),
-                                "depth": st.integers(0, 4), "pos": st.integers(0, 2)})
-    d2 = st.fixed_dictionaries({"dir": st.just(2), "literal": literal_strategy(), "ctx": st.sampled_from(["arg", "lang", "menu", "msgcase", "posmark", "posmark_ssbs"]), "indent": st.integers(0, 3)})
+                                "depth": st.integers(0, 4), "pos": st.integers(0, 2), "crlf": st.sampled_from([False, False, False, True])})
+    d2 = st.fixed_dictionaries({"dir": st.just(2), "literal": literal_strategy(), "ctx": st.sampled_from(["arg", "lang", "menu", "msgcase", "posmark", "posmark_ssbs"]), "indent": st.integers(0, 3), "crlf": st.sampled_from([False, False, False, True])})
     return weighted((2, d1), (1, d2))
 
 
@@ -150,6 +150,15 @@ def evaluate(case, stt):
     return eval_literal(case, stt)
 
 
+def _eol(text, case, stt):
+    """the text as a file saved with CR LF line ends (an editor on Windows, git autocrlf): the same tokens, and the
+    reader of multi-line literals takes CR LF for one line break"""
+    if case.get("crlf") and "\r" not in text:
+        stt.count("source_with_crlf_line_ends")
+        return text.replace("\n", "\r\n")
+    return text
+
+
 def eval_print_parse(case, stt):
     from explorerscript.ssb_converting import ssb_data_types as D
 
@@ -200,7 +209,7 @@ def eval_print_parse(case, stt):
         if exc is not None:
             fails.append(Failure("ssbs_print:" + exc[0], exc[1]))
             return fails
-        text = out[0]
+        text = _eol(out[0], case, stt)
         comp, exc = call_guard(lambda: compile_ssbs(text))
         if exc is not None:
             fails.append(Failure(bucket_for("rejected", "ssbs_op", v), f"SsbScript compiler rejects the printed text: {exc[1]}\n{text}"))
@@ -249,6 +258,7 @@ def eval_print_parse(case, stt):
         lines.append("    end;")
         lines.append("}")
         text = "\n".join(lines) + "\n"
+    text = _eol(text, case, stt)
     comp, exc = call_guard(lambda: compile_text(text))
     if exc is not None:
         fails.append(Failure(bucket_for("rejected", ctx, v), f"compiler rejects the printed text: {exc[1]}\n{text}"))
@@ -401,6 +411,7 @@ def eval_literal(case, stt):
         ref = reference_value(lit, text)
     except ValueError:
         return fails
+    src = _eol(src, case, stt)
     comp, exc = call_guard(lambda: compile_text(src))
     if exc is not None:
         fails.append(Failure(f"literal_rejected:{k}", f"grammatical literal {text!r} rejected: {exc[1]}\n{src}"))
